@@ -219,6 +219,18 @@ def _g3():
         z3.And((Q / s1) * s1 == Q, e == z3.ToReal(j) * (Q / s1))
 
 
+@lemma("allocate/quanta-bound", ["C06"],
+       "M*q == -(e1+e2+e3), |e_i| < q, q > 0  =>  |M| < 3 (and the instance "
+       "with e3 == 0 for two portions: |M| < 2)")
+def _alloc1():
+    M = I("M")
+    q, e1, e2, e3 = R("q"), R("e1"), R("e2"), R("e3")
+    hyp = [q > 0, z3.ToReal(M) * q == -(e1 + e2 + e3),
+           -q < e1, e1 < q, -q < e2, e2 < q]
+    return hyp, z3.And(z3.Implies(z3.And(-q < e3, e3 < q), z3.And(M < 3, M > -3)),
+                       z3.Implies(e3 == 0, z3.And(M < 2, M > -2)))
+
+
 # C01 -----------------------------------------------------------------------------
 def _conv(a, s_from, s_to):
     return a * s_from / s_to
